@@ -51,10 +51,14 @@ theorem interp_ok (t : Table) (O : Ops σ Seed Req Val) (seed : Option Seed) (ht
       · rw [interp, runIn]
         simp only [h1, effSeed, reduceCtorEq, if_false]
         rw [ih hk]
-  | kernel v k ih =>
+  | srand v k ih =>
     intro h cur outer st
     cases h with
-    | kernel hk => rw [interp, runIn, ih hk]
+    | srand hk => rw [interp, runIn, ih hk]
+  | crand r k ih =>
+    intro h cur outer st
+    cases h with
+    | crand hk => rw [interp, runIn, ih _ (hk _)]
 
 /-- the call under an admissible table, in closed form -/
 theorem call_ok (t : Table) (O : Ops σ Seed Req Val) (seed : Option Seed) (ht : tableOk t = true)
@@ -76,35 +80,89 @@ theorem setPriv_self (st : State σ Val) (i : Nat) : st.setPriv i (st.priv i) = 
   funext j
   by_cases h : j = i <;> simp [h]
 
-/-- for a seeded call output, final stream and request trace do not depend on entropy / libc -/
+/-- for a seeded call whose body keeps the libc discipline (`LibcOk`: no `rand()` loop before an `srand` of the
+same call) output, final private stream and request trace do not depend on the OS entropy counter nor on the
+state libc was in; and libc afterwards is either untouched or in a state that does not depend on where it was -/
 theorem runIn_seeded (t : Table) (O : Ops σ Seed Req Val) (s : Seed) :
-    ∀ (prog : Prog Req Val Out) (cur : σ) (e e' : Nat) (l l' : Option Val),
+    ∀ (prog : Prog Req Val Out) (b : Bool), LibcOk b prog → ∀ (cur : σ) (e e' : Nat) (l l' : σ),
+      (b = true → l = l') →
       (runIn t O (some s) prog cur e l).out = (runIn t O (some s) prog cur e' l').out ∧
       (runIn t O (some s) prog cur e l).cur = (runIn t O (some s) prog cur e' l').cur ∧
       (runIn t O (some s) prog cur e l).trace = (runIn t O (some s) prog cur e' l').trace ∧
-      (runIn t O (some s) prog cur e l).ent = e := by
-  intro prog
-  induction prog with
-  | ret o => intro cur e e' l l'; simp [runIn]
-  | draw site r k ih =>
-    intro cur e e' l l'
+      (runIn t O (some s) prog cur e l).ent = e ∧
+      (((runIn t O (some s) prog cur e l).libc = l ∧ (runIn t O (some s) prog cur e' l').libc = l') ∨
+        (runIn t O (some s) prog cur e l).libc = (runIn t O (some s) prog cur e' l').libc) := by
+  intro prog b h
+  induction h with
+  | ret o => intro cur e e' l l' _; simp [runIn]
+  | @draw b site r k _ ih =>
+    intro cur e e' l l' hl
     by_cases h : (lookup t site).src = .priv
     · rw [runIn, runIn]
       simp only [h, if_true]
-      have := ih (O.draw cur r).1 (O.draw cur r).2 e e' l l'
+      have := ih (O.draw cur r).1 (O.draw cur r).2 e e' l l' hl
       simp [this]
     · rw [runIn, runIn]
       simp only [h, if_false, effSeedE]
-      have := ih (O.draw (O.seedTo s) r).1 cur e e' l l'
+      have := ih (O.draw (O.seedTo s) r).1 cur e e' l l' hl
       simp [this]
-  | reseed site k ih =>
-    intro cur e e' l l'
+  | @reseed b site k _ ih =>
+    intro cur e e' l l' hl
     by_cases h : (lookup t site).src = .priv
-    · rw [runIn, runIn]; simp only [h, if_true, effSeedE]; exact ih _ e e' l l'
-    · rw [runIn, runIn]; simp only [h, if_false, effSeedE]; exact ih _ e e' l l'
-  | kernel v k ih =>
-    intro cur e e' l l'
-    rw [runIn, runIn]; exact ih _ e e' _ _
+    · rw [runIn, runIn]; simp only [h, if_true, effSeedE]; exact ih _ e e' l l' hl
+    · rw [runIn, runIn]; simp only [h, if_false, effSeedE]; exact ih _ e e' l l' hl
+  | @srand b v k _ ih =>
+    intro cur e e' l l' _
+    rw [runIn, runIn]
+    obtain ⟨h1, h2, h3, h4, h5⟩ := ih cur e e' (O.srandTo v) (O.srandTo v) (fun _ => rfl)
+    refine ⟨h1, h2, h3, h4, Or.inr ?_⟩
+    rcases h5 with ⟨ha, hb⟩ | h
+    · rw [ha, hb]
+    · exact h
+  | @crand r k _ ih =>
+    intro cur e e' l l' hl
+    have hll : l = l' := hl rfl
+    subst hll
+    rw [runIn, runIn]
+    obtain ⟨h1, h2, h3, h4, h5⟩ := ih (O.draw l r).1 cur e e' (O.draw l r).2 (O.draw l r).2 (fun _ => rfl)
+    refine ⟨h1, h2, h3, h4, Or.inr ?_⟩
+    rcases h5 with ⟨ha, hb⟩ | h
+    · rw [ha, hb]
+    · exact h
+
+/-- a body without kernel runs leaves libc where it was (seeded or not) -/
+theorem runIn_noLibc (t : Table) (O : Ops σ Seed Req Val) (seed : Option Seed) :
+    ∀ (prog : Prog Req Val Out), NoLibc prog → ∀ (cur : σ) (e : Nat) (l : σ),
+      (runIn t O seed prog cur e l).libc = l := by
+  intro prog h
+  induction h with
+  | ret o => intro cur e l; rfl
+  | @draw site r k _ ih =>
+    intro cur e l
+    by_cases h : (lookup t site).src = .priv
+    · rw [runIn]; simp only [h, if_true]; exact ih _ _ _ _
+    · rw [runIn]; simp only [h, if_false]; exact ih _ _ _ _
+  | @reseed site k _ ih =>
+    intro cur e l
+    by_cases h : (lookup t site).src = .priv
+    · rw [runIn]; simp only [h, if_true]; exact ih _ _ _
+    · rw [runIn]; simp only [h, if_false]; exact ih _ _ _
+
+/-- a body that never touches libc keeps the discipline trivially -/
+theorem NoLibc.libcOk {prog : Prog Req Val Out} (h : NoLibc prog) (b : Bool) : LibcOk b prog := by
+  induction h with
+  | ret o => exact .ret o
+  | draw _ ih => exact .draw ih
+  | reseed _ ih => exact .reseed ih
+
+/-- the discipline is monotone in the flag -/
+theorem LibcOk.mono {prog : Prog Req Val Out} {b : Bool} (h : LibcOk b prog) : LibcOk true prog := by
+  induction h with
+  | ret o => exact .ret o
+  | draw _ ih => exact .draw ih
+  | reseed _ ih => exact .reseed ih
+  | srand hk _ => exact .srand hk
+  | crand hk _ => exact .crand hk
 
 theorem run_append {G A : Type} (t : Table) (O : Ops σ Seed Req Val) (body : G → A → Prog Req Val Out) :
     ∀ (h : List (Op Seed Req G A)) (st : State σ Val) (ops : List (Op Seed Req G A)),
